@@ -4,6 +4,7 @@ import (
 	_ "a0quiet"
 	"io"
 	"os"
+	"runtime"
 	"strings"
 	"testing"
 
@@ -17,6 +18,18 @@ func TestMain(m *testing.M) {
 	// The library's verbose log lines are code too: odd-numbered shards run with verbosity 2 (output still discarded).
 	if sh, _ := gen.Shard(); sh%2 == 1 {
 		logger.SetLevel(2)
+	}
+	// (0) The number of processors the Go scheduler uses is part of the environment: of every four shards one runs with
+	// two and one with a single or three processors (the race-build companions keep the machine's count).
+	if sh, n := gen.Shard(); n >= 4 && os.Getenv("VERIF_RACE_DIR") == "" {
+		switch {
+		case sh%4 == 2:
+			runtime.GOMAXPROCS(2)
+		case sh%8 == 3:
+			runtime.GOMAXPROCS(1)
+		case sh%8 == 7:
+			runtime.GOMAXPROCS(3)
+		}
 	}
 	gen.SetProperty(os.Getenv("VERIF_PROP"))
 	// The process environment is an input too. (1) The repository's go.mod says "go 1.20": programs built from it (the
